@@ -156,6 +156,8 @@ def main(argv=None):
             jobs = [{"desc": {"name": "replay", "budget_s": 600}, "seed": rep.get("seed", seed), "tier": tier, "replay": rep["case"]}]
         else:
             descs = mod.shards(tier, seed)
+            if tier == "thorough" and getattr(mod, "REPO_TEST_MODULES", None) and hasattr(mod, "install"):
+                descs = descs + [{"name": "__repotests__", "idx": 0, "n": 1, "budget_s": 5400}]
             if args.only:
                 descs = [d for d in descs if args.only in d["name"]]
             jobs = [{"desc": d, "seed": seed, "tier": tier} for d in descs]
